@@ -8,11 +8,10 @@ _OVERLAY = {
 }
 _PKG = "./internal/rules/mechanisms/finalizers"
 
-# C16-F1 is open: the implementation is compared with the unrepaired variant of the model (`check false`).
-# After fixes/C16-F1.diff has been applied as a fix: commit, set this to True (and move the finding to "fixed").
-# VERIF_C16_FIXED=1 does the same for a single run (used to test the repair in a scratch worktree).
+# C16-F1 was repaired by fix: commit d9caf75, so the implementation is compared with the repaired variant of the model
+# (`check true`).  VERIF_C16_FIXED=0 compares with the pinned variant (to examine a checkout without the repair).
 import os as _os
-_FIXED_F1 = bool(_os.environ.get("VERIF_C16_FIXED"))
+_FIXED_F1 = _os.environ.get("VERIF_C16_FIXED", "1") != "0"
 
 P = {
     "id": "C16",
@@ -21,7 +20,7 @@ P = {
     "theorems_module": "Properties.C16",
     "theorems": ["C16_system_claims_win", "C16_exp_is_ttl_later", "C16_load_accepts_exactly_usable", "C16_load_never_panics",
                  "C16_header_names_active_key", "C16_token_verifies_against_published", "C16_jwks_public_only",
-                 "C16_run_meets_spec", "C16_run_meets_spec_repaired", "C16_F1_refuted", "C16_nonvacuous",
+                 "C16_run_meets_spec", "C16_run_meets_spec_pinned", "C16_F1_pinned_refuted", "C16_nonvacuous",
                  "C16_consistent_pair", "C16_sign_sees_one_load", "C16_torn_skeleton_refuted"],
     "streams": [{
         "name": "histories", "pkg": _PKG, "test": "TestVerifC16",
@@ -75,17 +74,19 @@ P = {
                   "store, the active entry being the one with the configured key id else the first; every token names that entry's key "
                   "id and algorithm, is signed by its key and verifies against the set published by the same load; the published set is "
                   "the public halves and certificates of all entries; and for ALL histories of Execute/reload/JWKS operations every "
-                  "observation meets the specification outside the inputs of finding C16-F1. Schedule part: for every lock skeleton "
+                  "observation meets the specification (for the pinned tree: outside the inputs of finding C16-F1, since repaired). Schedule part: for every lock skeleton "
                   "that passes wf_skeleton, every set of concurrent calls and every interleaving, all reads of one call see the "
                   "fields of one load, with key, JWK and published set of that load at each read. Tied to the code by ~600 (quick) / "
                   "12000 (thorough) generated histories through the real finalizer, signer, key store, registry and management "
                   "service per run, by re-extracting and checking the skeleton of jwt_signer.go on every run, and by a -race stress run.",
     "level_note": "Partial: cryptography, PEM/X.509/JSON/template handling and the clock are trusted/observed, not modelled; the "
                   "interleaving theorem is about the extracted lock skeleton under an idealised RWMutex, the Go memory model is not "
-                  "modelled (the race detector stream covers actual races only as far as its schedules go). Open finding C16-F1 "
-                  "(cached token survives a reload that keeps kid+alg but replaces the key) is observed on every run; the main "
-                  "history theorem is proved under its guard, C16_F1_refuted is the witness. Key stores with an unsupported key "
-                  "size / empty stores panic in the code (C19's findings); the model has these as explicit Panic outcomes. "
+                  "modelled (the race detector stream covers actual races only as far as its schedules go). Finding C16-F1 "
+                  "(cached token survived a reload that keeps kid+alg but replaces the key) was repaired by fix: commit d9caf75; the "
+                  "history theorem holds unguarded for the repaired model, the pinned behaviour is documented by "
+                  "C16_run_meets_spec_pinned / C16_F1_pinned_refuted, its witness is a corpus case (a regression is a VIOLATION). "
+                  "The two panic sites in load (Entries()[0], Entry.JWK) are kept in the model and proved unreachable since the "
+                  "fixes for C19-F1/F2 (C16_load_never_panics). "
                   "Non-whole-second ttls give exp-iat in {floor(ttl), ceil(ttl)} (claims are whole seconds) — stated in the theorem, "
                   "not counted as a finding. Concurrent reloads (watcher fires OnChanged in goroutines) may install the older of two "
                   "files last; the state stays consistent, convergence is C18's subject.",
